@@ -286,9 +286,51 @@ MUTANTS = [
     {'name': 'H4 insert borrows the map before validating the key', 'prop': 'C12', 'expect': 'H4 / hash_map_insert',
      'edits': [(CORE, "    let key = validate_hash_map_key(vm.peek(1))?;\n    let value = vm.peek(0);\n\n    let mut borrowed_hash_map = hash_map.borrow_mut();",
                 "    let mut borrowed_hash_map = hash_map.borrow_mut();\n    borrowed_hash_map.elements.remove(&Value::None);\n    let key = validate_hash_map_key(vm.peek(1))?;\n    let value = vm.peek(0);\n")]},
+    # ---- C04 ----------------------------------------------------------------------------------------
+    {'name': 'B1 Invoke emitted with a one-byte method-name operand', 'prop': 'C04', 'expect': 'B1 / Invoke',
+     'edits': [(COMP, "            s.emit_constant_op(OpCode::Invoke, name);\n            s.emit_byte(arg_count);", "            s.emit_bytes([OpCode::Invoke as u8, name as u8]);\n            s.emit_byte(arg_count);")]},
+    {'name': 'B1 Call handler reads a two-byte argument count', 'prop': 'C04', 'expect': 'B1 / Call',
+     'edits': [(VM, "        let arg_count = self.read_byte() as usize;\n        self.call_value(self.peek(arg_count), arg_count)", "        let arg_count = self.read_short() as usize;\n        self.call_value(self.peek(arg_count), arg_count)")]},
+    {'name': 'B1 SetProperty reads its name only on the instance path', 'prop': 'C04', 'expect': 'B1 / SetProperty',
+     'edits': [(VM, "        if let Some(module) = self.peek(1).try_as_obj_module() {\n            let name = self.read_string();\n            let value = self.peek(0);", "        if let Some(module) = self.peek(1).try_as_obj_module() {\n            let name = self.next_string;\n            let value = self.peek(0);")]},
+    {'name': 'B1 arg_sizes says SetUpvalue takes two bytes', 'prop': 'C04', 'expect': 'B1 / SetUpvalue (variable opcode)',
+     'edits': [(CHUNK, "            OpCode::SetUpvalue => &[1],", "            OpCode::SetUpvalue => &[2],")]},
+    {'name': 'B2 patch_jump off by one', 'prop': 'C04', 'expect': 'B2 / patch_jump',
+     'edits': [(COMP, "        let jump = self.chunk.code.len() - offset - 2;", "        let jump = self.chunk.code.len() - offset - 1;")]},
+    {'name': 'B2 Loop jumps forward', 'prop': 'C04', 'expect': 'B2 / loop_impl',
+     'edits': [(VM, "        self.ip = unsafe { self.ip.offset(-(offset as isize)) };", "        self.ip = unsafe { self.ip.offset(offset as isize) };")]},
+    {'name': 'B2 VM reads operands little-endian', 'prop': 'C04', 'expect': 'B2 / u16 operands',
+     'edits': [(VM, "            let ret = u16::from_ne_bytes([*self.ip, *self.ip.offset(1)]);", "            let ret = u16::from_be_bytes([*self.ip, *self.ip.offset(1)]);")]},
+    {'name': 'B3 else-jump of if never patched', 'prop': 'C04', 'expect': 'B3 / if_statement / jump #1',
+     'edits': [(COMP, "            self.statement();\n        }\n        self.patch_jump(else_jump);", "            self.statement();\n        }")]},
+    {'name': 'B3 and-operator patched only when the right operand is a literal', 'prop': 'C04', 'expect': 'B3 / and / jump #0',
+     'edits': [(COMP, "        s.parse_precedence(Precedence::And);\n\n        s.patch_jump(end_jump);", "        s.parse_precedence(Precedence::And);\n\n        if s.previous.kind == TokenKind::True {\n            s.patch_jump(end_jump);\n        }")]},
+    {'name': 'B3 while loop forgets to drain its breaks', 'prop': 'C04', 'expect': 'B3 / while_statement: push_loop is followed by pop_loop',
+     'edits': [(COMP, '''        self.patch_jump(exit_jump);
+        self.emit_byte(OpCode::Pop as u8);
+        match self.compiler_mut().pop_loop() {
+            Ok(_) => {}
+            Err(e) => self.compiler_error(e),
+        }
+    }''', '''        self.patch_jump(exit_jump);
+        self.emit_byte(OpCode::Pop as u8);
+        self.compiler_mut().loop_stack.pop();
+    }''')]},
+    {'name': 'B4 argument count limit off by one', 'prop': 'C04', 'expect': 'B4 / Parser::<\'a>::argument_list / arg_count as u8',
+     'edits': [(COMP, "                if arg_count == 255 {\n                    self.error(count_msg);", "                if arg_count == 256 {\n                    self.error(count_msg);")]},
+    {'name': 'B4 jump limit admits 65536 again', 'prop': 'C04', 'expect': 'B4 / Compiler::patch_jump / jump as u16',
+     'edits': [('yarel/src/common.rs', "pub const JUMP_SIZE_MAX: usize = u16::MAX as usize;", "pub const JUMP_SIZE_MAX: usize = u16::MAX as usize + 1;")]},
+    {'name': 'B4 hash map literal limit checked after the cast site', 'prop': 'C04', 'expect': 'B4 / Parser::<\'a>::hash_map',
+     'edits': [(COMP, "                if num_entries == 255 {\n                    s.error(\"Cannot have more than 255 HashMap entries.\");\n                }\n", "")]},
+    {'name': 'B4v globals resolved with the one-byte local opcodes', 'prop': 'C04', 'expect': 'B4v / resolve_variable returns',
+     'edits': [(COMP, "            (\n                OpCode::GetGlobal,\n                OpCode::SetGlobal,\n                self.identifier_constant(&name),\n            )", "            (\n                OpCode::GetLocal,\n                OpCode::SetLocal,\n                self.identifier_constant(&name),\n            )")]},
+    {'name': 'B5 more locals than a one-byte slot operand can name', 'prop': 'C04', 'expect': 'LOCALS_MAX',
+     'edits': [('yarel/src/common.rs', "pub const LOCALS_MAX: usize = u8::MAX as usize + 1;", "pub const LOCALS_MAX: usize = u8::MAX as usize + 45;")]},
 ]
 
 BENIGN = [
+    {'name': 'then-jump patched through a helper variable, statements reordered', 'prop': 'C04',
+     'edits': [(COMP, "        let else_jump = self.emit_jump(OpCode::Jump);\n\n        self.patch_jump(then_jump);", "        let else_jump = self.emit_jump(OpCode::Jump);\n        let tj = then_jump;\n\n        self.patch_jump(tj);")]},
     {'name': 'new trace-only cfg! print', 'prop': 'C10',
      'edits': [(VM, "        let arg_count = self.read_byte() as usize;\n        self.call_value(self.peek(arg_count), arg_count)",
                 "        let arg_count = self.read_byte() as usize;\n        if cfg!(feature = \"debug_trace\") {\n            println!(\"call with {} args\", arg_count);\n        }\n        self.call_value(self.peek(arg_count), arg_count)")]},
